@@ -3,9 +3,11 @@
 patch="$1"; shift
 if ! git -C /repo diff --quiet; then echo "/repo has uncommitted changes"; exit 2; fi
 git -C /repo apply "$patch" || { echo "patch does not apply"; exit 2; }
+export VERIF_EVIDENCE_DIR=$(mktemp -d /dev/shm/mut-evidence.XXXXXX)
 for id in "$@"; do
   out=$(cd /verif && ./check "$id" --tier "${TIER:-quick}" 2>&1); rc=$?
   echo "== $id exit=$rc $(echo "$out" | grep -c '^VIOLATION') VIOLATION line(s)"
   echo "$out" | grep -E "unlisted|^VIOLATION|HARNESS" | head -5
 done
+rm -rf "$VERIF_EVIDENCE_DIR"
 git -C /repo checkout -- . ; git -C /repo status --short | head -3
